@@ -639,7 +639,7 @@ func c19RunOutput(c *c19Case) (exp, act, sig string, ok bool) {
 
 func c19Work(w *h.W) {
 	textOps := []string{"get_char", "peek_char", "read", "at_end", "position", "end_of_stream", "neg_peek_char", "peek_char_eof"}
-	byteOps := []string{"get_byte", "peek_byte", "at_end", "position", "end_of_stream", "neg_peek_byte", "get_char", "peek_byte_eof"}
+	byteOps := []string{"get_byte", "peek_byte", "at_end", "position", "end_of_stream", "neg_peek_byte", "get_char", "peek_byte_eof", "read"}
 	if w.Thorough() {
 		textOps = append(textOps, "get_char_eof", "get_code", "peek_code", "get_byte")
 		byteOps = append(byteOps, "get_byte_eof")
@@ -775,7 +775,7 @@ func c19Replay(b []byte) (string, string, bool) {
 func init() {
 	h.Register(&h.Check{
 		ID: "C19",
-		Rule: "all sequences of <= L input operations out of {get_char, peek_char, read_term, at_end_of_stream, position, end_of_stream, a failing peek with an instantiated argument, get/peek with the end-of-stream value (end_of_file, -1) as instantiated argument} (thorough: plus get_code, peek_code, a byte operation on a text stream) over 15 short source texts (ASCII and multi-byte, with and without trailing layout, comments, 0'c, quoted atoms, text ending inside a term) and 3 long ones whose operations straddle byte 4096 of the buffer, x stream kinds {file opened by open/4 with each eof_action, host strings.Reader, a one-byte-at-a-time reader, a reader that returns data together with io.EOF, a seekable strings.Reader and an *os.File handed over after the host consumed a header from them}; a host source that GROWS after it reported end of file (environment events feed1/feed2 interleaved with the operations, all sequences of <= 4 (5) over 9 symbols on 3 initial texts); the same for binary files over 5 byte sources with {get_byte, peek_byte, ...}; every sequence issued BOTH as separate queries and as consecutive goals of one conjunction; plus all sequences of <= L output operations to the host writer and to a file. Distinct = case.",
+		Rule: "all sequences of <= L input operations out of {get_char, peek_char, read_term, at_end_of_stream, position, end_of_stream, a failing peek with an instantiated argument, get/peek with the end-of-stream value (end_of_file, -1) as instantiated argument} (thorough: plus get_code, peek_code, a byte operation on a text stream) over 15 short source texts (ASCII and multi-byte, with and without trailing layout, comments, 0'c, quoted atoms, text ending inside a term) and 3 long ones whose operations straddle byte 4096 of the buffer, x stream kinds {file opened by open/4 with each eof_action, host strings.Reader, a one-byte-at-a-time reader, a reader that returns data together with io.EOF, a seekable strings.Reader and an *os.File handed over after the host consumed a header from them}; a host source that GROWS after it reported end of file (environment events feed1/feed2 interleaved with the operations, all sequences of <= 4 (5) over 9 symbols on 3 initial texts); the same for binary files over 5 byte sources with {get_byte, peek_byte, ..., and the text operations get_char and read_term, which must be refused without any effect}; every sequence issued BOTH as separate queries and as consecutive goals of one conjunction; plus all sequences of <= L output operations to the host writer and to a file. Distinct = case.",
 		Explanation: "state = (byte offset, end-of-file delivered) of the reference cursor; transition = one input predicate on the real stream; every operation's observed value is compared with the reference cursor model (peeks leave the cursor, reads deliver consecutive characters/bytes/terms, end_of_file then the eof_action, position = bytes consumed, end_of_stream never at/past while input remains and past once end_of_file was delivered)",
 		Assumptions: []string{"whether read_term/3 consumes the layout character after the end token is implementation defined and resolved by observing the implementation once", "after a syntax error the cursor is unspecified: the rest of that sequence is not asserted"},
 		Work:        c19Work,
